@@ -210,4 +210,51 @@ theorem step_mono {s s' : State} {l : Label} (h : step s l = some s') :
     · obtain ⟨_, _, _, rfl⟩ := updConn_some h; simp
     · cases h
 
+theorem run_append (s : State) (xs ys : List Label) :
+    run s (xs ++ ys) = (run s xs).bind (fun s' => run s' ys) := by
+  induction xs generalizing s with
+  | nil => simp [run]
+  | cons x xs ih =>
+    simp only [List.cons_append, run]
+    split
+    · exact ih _
+    · rfl
+
+theorem run_mono {s s' : State} {ls : List Label} (h : run s ls = some s') :
+    (s.sigReady = true → s'.sigReady = true) ∧ (s.loopRunning = false → s'.loopRunning = false) := by
+  induction ls generalizing s with
+  | nil => simp only [run, Option.some.injEq] at h; subst h; exact ⟨id, id⟩
+  | cons l ls ih =>
+    simp only [run] at h
+    split at h
+    · rename_i s1 hs1
+      have h1 := step_mono hs1
+      have h2 := ih h
+      exact ⟨fun x => h2.1 (h1.1 x), fun x => h2.2 (h1.2.2.1 x)⟩
+    · cases h
+
+theorem reachable_run {g b a : Bool} {ls : List Label} : ∀ {s0 s : State},
+    Reachable g b a s0 → run s0 ls = some s → Reachable g b a s := by
+  induction ls with
+  | nil => intro s0 s h0 hr; simp only [run, Option.some.injEq] at hr; exact hr ▸ h0
+  | cons l ls ih =>
+    intro s0 s h0 hr
+    simp only [run] at hr
+    split at hr
+    · rename_i s1 hs1; exact ih (.step l h0 hs1) hr
+    · cases hr
+
+/-- the accept branch is dead once the signal is ready (repaired loop) or the loop is over -/
+theorem accept_disabled {s : State} (hg : Good s)
+    (h : (s.cfgBiased = true ∧ s.sigReady = true) ∨ s.loopRunning = false) (c : Nat) :
+    step s (.loopAccept c) = none := by
+  simp only [step]
+  cases hrun : s.loopRunning with
+  | false => simp [incomingBranch, hrun]
+  | true =>
+    rcases h with ⟨hb, hs⟩ | h
+    · have := hg.running_not_taken hrun
+      simp [incomingBranch, sigBranchReady, hrun, hb, hs, this]
+    · simp [hrun] at h
+
 end Shutdown
